@@ -280,7 +280,7 @@ def cmdRefine (args : List String) : String :=
     match parseProg ps, parseMachine ms with
     | .ok p, .ok M =>
       let o : SemOpts := { strictDone := sd.startsWith "1", substLast := sl = "1", dropLoose := sd.toList.contains 'L',
-                           waitEndForeach := sd.toList.contains 'E' }
+                           waitEndForeach := sd.toList.contains 'E', skipLoses := sd.toList.contains 'S' }
       let spec := Src.sm p o
       let mach := M.smS o
       let r := explore spec mach nSym lim.toNat!
@@ -298,7 +298,10 @@ def cmdRefine (args : List String) : String :=
               let spec0 := Src.sm p o
               s!" STRICT word={symStr w0} sym={x0} spec=[{",".intercalate ((ps0.a.getD []).map fmtFrame)}] mach={ps0.b} aLeads={ps0.aLeads} lag=[{" ".intercalate (ps0.lag.map fmtEv)}] treeSpec={fmtPathsS (spec0.tree ps0.a x0)} treeMach={fmtPaths (mach.tree ps0.b x0)}"
             | none => ""
-          s!"mismatch word={symStr w} sym={x} spec=[{",".intercalate ((ps.a.getD []).map fmtFrame)}] mach={ps.b} aLeads={ps.aLeads} lag=[{" ".intercalate (ps.lag.map fmtEv)}] treeSpec={fmtPathsS (spec.tree ps.a x)} treeMach={fmtPaths (mach.tree ps.b x)}{strictInfo}"
+          let spinsAt := fun (b : Option Nat) (y : Nat) =>
+            (mach.tree b y).paths.any fun pth => pth.1.any fun e => e == .act (.ret "SPIN") || e == .act (.ret "YSPIN")
+          let machSpins := spinsAt ps.b x || (match r.mismatch with | some (_, ps0, x0) => spinsAt ps0.b x0 | none => false)
+          s!"mismatch{if machSpins then "-machine-spins" else ""} word={symStr w} sym={x} spec=[{",".intercalate ((ps.a.getD []).map fmtFrame)}] mach={ps.b} aLeads={ps.aLeads} lag=[{" ".intercalate (ps.lag.map fmtEv)}] treeSpec={fmtPathsS (spec.tree ps.a x)} treeMach={fmtPaths (mach.tree ps.b x)}{strictInfo}"
         | none =>
           if r2.outOfFuel then s!"fuel visited={r2.visited.size}"
           else
